@@ -35,11 +35,19 @@ func streamOpen(stream string) bool {
 
 // modelCheck asks the model (unless the stream is closed) and records a disagreement; returns false on one.
 func modelCheck(r *corr.Run, prop, stream string, ops func() []string, op, impl string) bool {
+	return modelCheckF(r, prop, stream, ops, op, impl, nil)
+}
+
+// modelCheckF: as modelCheck, comparing norm(model answer) with impl (norm may also count what the model did).
+func modelCheckF(r *corr.Run, prop, stream string, ops func() []string, op, impl string, norm func(string) string) bool {
 	if !streamOpen(stream) {
 		r.Count("corr.skipped." + stream)
 		return true
 	}
 	model := r.Ask(op)
+	if norm != nil {
+		model = norm(model)
+	}
 	if model == impl {
 		return true
 	}
@@ -156,6 +164,70 @@ func (w *world) corrReplica(rep *replica, what string) {
 	}
 }
 
+// corrAddRaw: the set of changes the real AddRawChanges reports as added (= writes to storage) against the model's
+// `addRaw` (in-memory branch / rebuild-from-storage branch) on the receiver's pre-state.
+func (w *world) corrAddRaw(pre addRawPre, batchIds []string, theirPath []string, addedIds []string, what string) {
+	var ids []string
+	ids = append(ids, w.idsOf(pre.att)...)
+	ids = append(ids, w.idsOf(batchIds)...)
+	ids = append(ids, w.idsOf(pre.stored)...)
+	ids = append(ids, pre.path...)
+	ids = append(ids, theirPath...)
+	in := newInterner(ids)
+	var attS, bS, stS []string
+	attS = append(attS, in.change(w.info[pre.root]))
+	for _, id := range pre.att {
+		if id != pre.root {
+			attS = append(attS, in.change(w.info[id]))
+		}
+	}
+	for _, id := range batchIds {
+		bS = append(bS, in.change(w.info[id]))
+	}
+	for _, id := range pre.stored {
+		stS = append(stS, in.change(w.info[id]))
+	}
+	op := fmt.Sprintf("addraw %d %s %s | %s | %s | %s", in.n(pre.root), in.list(pre.path), in.list(theirPath),
+		strings.Join(attS, " "), strings.Join(bS, " "), strings.Join(stS, " "))
+	impl := "added=" + in.sortedList(addedIds)
+	modelCheckF(w.r, "C09", "objecttree.addraw", func() []string { return append(w.ops(), what, op) }, op, impl,
+		func(m string) string {
+			f := strings.Fields(m)
+			if len(f) == 3 && f[0] == "ok" {
+				w.r.Count("corr.addraw." + f[1])
+				return f[2]
+			}
+			return m
+		})
+}
+
+type addRawPre struct {
+	root   string
+	att    []string
+	stored []string
+	path   []string
+}
+
+// corrRebuild: the tree just built from storage against the model's `buildFromStorage` on the stored sequence.
+func (w *world) corrRebuild(rep *replica) {
+	cs, err := rep.st.CommonSnapshot(w.ctx)
+	if err != nil {
+		return
+	}
+	sids := storedIds(w.stored(rep))
+	in := newInterner(w.idsOf(sids))
+	parts := []string{"rebuild", fmt.Sprint(in.n(cs))}
+	for _, id := range sids {
+		parts = append(parts, in.change(w.info[id]))
+	}
+	op := strings.Join(parts, " ")
+	t := objecttree.VerifTree(rep.tree)
+	it := iterIds(rep.tree)
+	impl := fmt.Sprintf("ok %d %s heads=%s last=%d", in.n(rep.tree.Root().Id), in.list(it), in.sortedList(rep.tree.Heads()), in.n(t.VerifLastIteratedHeadId()))
+	modelCheck(w.r, "C06", "tree.rebuild", func() []string { return append(w.ops(), "reopen", op) }, op, impl)
+	w.r.Count("corr.tree.rebuild")
+}
+
 // corrLoader: the real loader's answer against the model's `respond` on the responder's stored sequence.
 func (w *world) corrLoader(resp *replica, theirHeads, theirPath []string, limit int, batches []loaderBatch, what string) {
 	ourPath, _ := resp.tree.SnapshotPath()
@@ -255,6 +327,10 @@ func genDag(r *corr.Run) ([]*tnode, map[string]*chInfo, *interner) {
 		np := 1
 		if r.Chance(35) {
 			np = 2 + r.Intn(2)
+		}
+		if r.Chance(6) {
+			np = 0 // hostile: a non-root change without previous ids (must never be attached, nor its descendants)
+			r.Count("treelevel.parentless")
 		}
 		for k := 0; k < np; k++ {
 			p := nodes[r.Intn(len(nodes))].id
